@@ -178,6 +178,11 @@ def run_instance(cid, inst_index, tier, seed=0, repo_src=None, native_trials=0, 
     for ctx in ctxs:
         bounded_clauses |= ctx.memo.get("bounded_clauses", set())
     res["bounded_clauses"] = sorted(f"{cid}#{b}[{label}]" for b in bounded_clauses)
+    fps = {}
+    for ctx in ctxs:
+        for nm, texts in ctx.memo.get("fingerprints", {}).items():
+            fps.setdefault(nm, set()).update(texts)
+    res["fingerprints"] = {nm: sorted(t) for nm, t in fps.items()}
     if nobl == 0 and not bounded_clauses and not res["checker_errors"]:
         res["checker_errors"].append({"where": f"{cid}[{label}]", "trace": "no obligations generated"})
     if bounded_clauses and not native_trials:
